@@ -49,16 +49,21 @@ Rest == <<
   E("env", "f:debug", "debug_safe"), E("env", "f:string", "string_lib"),
   E("env", "f:package", "pkg_fake"), E("env", "f:mw", "mw"),
   E("pkg_fake", "f:loaders", "new_loader"),
-  E("os_safe", "f:time", "os_time"), E("debug_safe", "f:traceback", "dbg_traceback"),
   E("require", "c:mw_text", "mw_text"), E("mw", "m:text", "mw_text"),
   \* the frame
-  E("frame", "f:args", "frame_args"), E("frame", "f:getParent", "get_parent"),
-  E("get_parent", "c:self", "pframe"), E("pframe", "f:args", "pframe_args"),
-  E("frame", "f:preprocess", "helper_preprocess")
+  E("frame", "f:getParent", "get_parent"),
+  E("get_parent", "c:self", "pframe")
 >>
 
-CONSTANT WholeDesign   \* FALSE: core of the graph only (for the every-order exploration)
-Base == IF WholeDesign THEN Core \o Rest ELSE Core
+Leaves == <<
+  E("frame", "f:args", "frame_args"),
+  E("os_safe", "f:time", "os_time"), E("debug_safe", "f:traceback", "dbg_traceback"),
+  E("pframe", "f:args", "pframe_args"), E("frame", "f:preprocess", "helper_preprocess")
+>>
+
+CONSTANTS WholeDesign,  \* FALSE: core of the graph only (for the every-order exploration)
+          WithLeaves    \* FALSE: without nodes that have no outgoing edge (each doubles the every-order state space)
+Base == (IF WholeDesign THEN Core \o Rest ELSE Core) \o (IF WithLeaves THEN Leaves ELSE <<>>)
 
 Retained == <<
   E("require", "c:io", "host_io"), E("require", "c:os", "host_os"),
